@@ -519,7 +519,10 @@ def r7_eval(run: Run, rt, only=None):
              ('approx', [1, 2, 3], 5, 3, 'value above every key'), ('approx', [2, 3, 4], 1, '#N/A', 'value below every key'),
              # rows that do not take part (blank key, key of another kind) still count as positions of the area
              ('exact', [BLANK, 1, 2], 2, 3, 'a blank key row in front'), ('exact', [1, 'x', 2], 2, 3, 'a text key row in between'),
-             ('approx', [BLANK, 1, 2, 4], 3, 3, 'a blank key row in front (approximate)')]
+             ('approx', [BLANK, 1, 2, 4], 3, 3, 'a blank key row in front (approximate)'),
+             ('exact', ['apple', 'Banana', 'Cherry'], 'Banana', 2, 'a text key with an upper-case letter'),
+             ('exact', ['apple', 'Banana', 'Cherry'], 'apple', 1, 'a lower-case text key'),
+             ('exact', ['apple', 'Banana', 'Cherry'], 'Date', '#N/A', 'a text that is no key')]
     for cp in rt.copies():
         for h in ('_vlookup', '_match'):
             if only is not None and (cp.label, h) not in only:
